@@ -20,5 +20,6 @@ def run(ctx):
     state.r_memo(ctx)
     state.r_memo_new(ctx)
     formula.r_regen(ctx)
+    formula.r_hook_memo(ctx)     # no hook answers from what it stored at an earlier solve
     translate.r_leafreg(ctx)     # every registered leaf is re-assigned, unconditionally, after each successful solve
     ctx.floor("accumulating writes examined", n, 5)
